@@ -234,6 +234,7 @@ func suiteRelaySoak(e *vh.Env) {
 		e.Fail("C01:process-crashed", c, -1, nil, nil, nil)
 	}
 	e.Sample(map[string]interface{}{"requests": total, "concurrency": par})
+	relayAbandoned(e, total)
 }
 
 // suiteHandoff (C04): concurrent pollers against the real proxy: every request ID must
